@@ -94,27 +94,49 @@ def handle (r : Responder) (close : Bool) (sid : StateId) (snap : Snap) : Handle
 
 end Responder
 
-/-- `popResponders(permitExpunge)`: (popped, remaining). `skip` is the `skipIDs` set. -/
-def popAux (skip : List MsgId) : List Responder → List Responder × List Responder
+/-- what `popResponders` does to a responder it holds back behind a held-back EXISTS of the same
+    message: a `*fetch` gets `asSilent = false` (it will be applied after the command that asked for
+    silence has completed, so it has to be announced then) -/
+def Responder.unsilent : Responder → Responder
+  | .fetch id fl op a _ o => .fetch id fl op a false o
+  | r => r
+
+/-- `len(heldExists) > 0 || heldExpunge.Contains(id)`: is an EXISTS of message `id` held back -/
+def holdsExists (hexp hex : List MsgId) (id : MsgId) : Bool := !hex.isEmpty || hexp.contains id
+
+/-- `popResponders(permitExpunge = false)`: (popped, remaining).
+    `hexp` = `heldExpunge` (messages with a retained expunge; never removed),
+    `hex` = `heldExists` (messages with a retained exists).  The Go sets are modelled by lists;
+    only membership and emptiness are ever asked.
+    * an `expunge` is retained;
+    * a `targetedExists` is retained iff some exists is already held back or its message has a
+      retained expunge, else popped;
+    * any other responder of a message with a held-back exists is retained (a fetch un-silenced);
+    * everything else is popped. -/
+def popAux (hexp hex : List MsgId) : List Responder → List Responder × List Responder
   | [] => ([], [])
   | r :: rs =>
     match r with
     | .expunge id =>
-      let (p, q) := popAux (if skip.contains id then skip else id :: skip) rs
+      let (p, q) := popAux (id :: hexp) hex rs
       (p, r :: q)
     | .exists id .. =>
-      if skip.contains id then
-        let (p, q) := popAux (skip.filter (· != id)) rs
+      if holdsExists hexp hex id then
+        let (p, q) := popAux hexp (id :: hex) rs
         (p, r :: q)
       else
-        let (p, q) := popAux skip rs
+        let (p, q) := popAux hexp hex rs
         (r :: p, q)
-    | .fetch .. =>
-      let (p, q) := popAux skip rs
-      (r :: p, q)
+    | .fetch id .. =>
+      if hex.contains id then
+        let (p, q) := popAux hexp hex rs
+        (p, r.unsilent :: q)
+      else
+        let (p, q) := popAux hexp hex rs
+        (r :: p, q)
 
 def popResponders (permit : Bool) (res : List Responder) : List Responder × List Responder :=
-  if permit then (res, []) else popAux [] res
+  if permit then (res, []) else popAux [] [] res
 
 /-- the loop of `flushResponses` over the popped responders -/
 def handleAll (close : Bool) (sid : StateId) :
